@@ -223,6 +223,9 @@ class Init(Contract):
 def mk(cls_, params_, fields_, props_, kw_=(), extra_=(), uses_loop_=False, varargs_=0, tag='', positional_=False, file_=None,
        method_='__init__', self_fields_=(), self_refs_=()):
     d = {'method': method_, 'self_fields': tuple(self_fields_), 'self_refs': tuple(self_refs_)}
+    if any('ensure_io_loop' in e for e in extra_) and 'C19' not in props_:
+        # a node that needs a loop asks the base constructor for one: without it a pipeline that has no loop yet stays without
+        props_ = list(props_) + ['C19']
     if file_:
         d.update({'file': file_, 'files': [file_, CORE]})
     return type('Init_' + cls_ + tag, (Init,), dict(d, **{'cls': cls_, 'params': tuple(params_), 'fields': dict(fields_), 'props': list(props_),
